@@ -19,28 +19,30 @@ import vf
 import g8determ as D
 
 META = {
-    "text": "Theorems (Coq, no axioms): a strict total order has a unique sorted permutation, instantiated to stateBuffer.export (result "
-            "independent of the Go map iteration order and of what the unstable sort does; keys strictly ascending), to the vote ranking "
-            "under the repaired VoteList.Less (proved strict total; the comparator at HEAD is refuted by the parity-twin witness, F10) and to "
-            "the voting-power buckets (kept ordered by account id, canonical); the producer, which skips failing transactions, builds exactly "
-            "the blocks the validator accepts with the same final state (governance-level executor); execution depends on the durable state "
-            "only when the process-wide rank equals the one rebuilt from it, and a discarded production breaks that (F12 witness). Every map "
-            "range, time.Now, unseeded rand and multi-case select in functions reachable from executeTx/executeBlock/GatherTXs is inventoried "
-            "from the source on every run and must carry a shape with a proved order-independence lemma, a reviewed reading, or be a reported "
-            "finding. On every run the real chain code produces and validates blocks (transfers, staking, tied votes, parameter votes, names, "
-            "failing transactions) in five separate processes with GOMAXPROCS 1 and 16: block bytes, state roots, receipts roots and receipts "
-            "bytes must be identical and every produced block accepted by a fresh validator (cases include contract DEPLOY/CALL transactions whose VM is scripted to succeed with a fee, fail with a runtime "
-            "error, die with a VM system error after consuming a fee, time out, or exceed the payer's balance, under zero-fee and public fee regimes with a "
-            "coinbase account), and no dropped transaction may have changed BpReward / receipts / internalOps / CCProposal / the in-memory voting power; "
-            "the governance transactions of those blocks are replayed by "
-            "the Gallina governance model, which must predict every accept / error class and the governance observables of every connected block; "
-            "clause (d) (buckets ordered by account id) is evaluated directly on the real contract/system package.",
-    "note": "Partial: goroutine scheduling of the parallel trie update is exercised (GOMAXPROCS 1 vs 16, separate processes) but race freedom "
-            "is not proved. The inventory's reachability is an over-approximate static call graph over the listed packages (calls into "
-            "pkg/trie, fee, internal/* are not followed; Lua VM behind cgo is an oracle); the table of reviewed sites in Determ/Shapes.v is "
-            "a manual reading and part of the trusted base. The agreement theorem is about the governance-level executor model; the full "
-            "executor (VM, fees) is covered only by the engine runs. Blocks in the engine are unsigned (StubConsensus).",
-    "technique": "Coq proofs (sorting uniqueness, agreement) + reflective check of a source inventory + cross-process differential execution of the real chain package",
+    "text": "25 axiom-free Coq theorems + one reflective obligation per reachable inventory site (21). FULL: unique sorted permutation for a strict total "
+            "order, instantiated to stateBuffer.export (independent of map order and of the unstable sort; keys ascending), the vote "
+            "ranking (VoteList.Less strict total) and the voting-power buckets (ordered by account id, canonical). "
+            "FULL for the executor models: the producer (drops failing txs, ends the block on a contract timeout, stops before the first "
+            "tx after the deadline, every position) builds exactly the block the validator accepts with the same block state - covered part, "
+            "BpReward, receipts, internalOps, CCProposal, globals - provided dropped txs left the parts Snapshot/Rollback do not save "
+            "untouched (executeTx's ordering guarantees pot/receipts/ops); a block executed then refused leaves no residue "
+            "(Status.Update rollback branch). REFUTED on HEAD: execution depends on the durable state only "
+            "(C02:vpr-residue-discarded-execution, F12: a producer's unconnected block). Tie to /repo on every run: "
+            "gen_mapranges inventories map ranges / time.Now / rand / selects reachable from executeTx, executeBlock, GatherTXs "
+            "(F43 C02:toLuaTable-map-order-before-v3 is a site); ~110 cases (transfers, tied votes, scripted DEPLOY/CALL/FEEDELEGATION "
+            "outcomes with fees, coinbase, versions 0-5, deadline at every position, refused siblings) run through the real "
+            "GenerateBlock/GatherTXs, real executor, real dpos.Status in 3 producer + 2 validator processes (GOMAXPROCS 1/16): bytes, roots, receipts "
+            "identical, every block accepted, dropped transactions leave no trace (unsaved parts + visible-state dump), governance outcomes replayed by "
+            "the Gov model, bucket order on the real package.",
+    "note": "Trusted: Coq kernel + vm_compute (no axioms); translator gen/gen_mapranges (go/types, over-approximate static call graph over the listed "
+            "packages; calls into pkg/trie, fee, internal/* not followed; C code invisible) and the 12 manually reviewed sites of Determ/Shapes.v:reviewed; "
+            "engine harness/engines/determ (real NewChainService nodes, unsigned blocks, consensus = StubConsensus + real dpos.Status.Update); case "
+            "generator lib/g8determ.py; the Lua VM is an oracle scripted through the overlay stub (determVM); sort.Sort/Slice return an inversion-free "
+            "permutation. Modelled, not verified: validation + contract execution inside executeTx is an oracle (`core`) in Determ/BlockState.v; the "
+            "agreement theorems are about those models, the full executor is exercised by the engine. Partial: goroutine scheduling of the parallel trie "
+            "update is exercised (GOMAXPROCS 1 vs 16, separate processes), race freedom is not proved; permutation-level order independence of vpr.apply "
+            "is proved for adjacent swaps only.",
+    "technique": "Coq proofs (sorting uniqueness, producer/validator agreement) + reflective check of a source inventory + cross-process differential execution of the real chain package",
 }
 
 E = os.path.join(vf.HARNESS, "engines/determ")
